@@ -15,12 +15,14 @@
 package chaindouble
 
 import (
+	"bufio"
 	"bytes"
 	"context"
 	"encoding/json"
 	"errors"
 	"io/ioutil"
 	"math/big"
+	"net"
 	"net/http"
 	"net/http/httptest"
 	"strings"
@@ -67,6 +69,7 @@ type Endpoint struct {
 	subs    []*logSub
 	nsubs   int // subscriptions ever created
 	arrived map[string]int
+	wsConns []net.Conn
 	closed  bool
 }
 
@@ -85,7 +88,8 @@ func New(name string, chainID *big.Int) *Endpoint {
 	ws := e.rpcSrv.WebsocketHandler([]string{"*"})
 	e.srv = httptest.NewServer(http.HandlerFunc(func(w http.ResponseWriter, r *http.Request) {
 		if strings.EqualFold(r.Header.Get("Upgrade"), "websocket") {
-			ws.ServeHTTP(w, r)
+			// httptest forgets hijacked connections: keep them, so that DropConnections can cut them
+			ws.ServeHTTP(&hijackRecorder{ResponseWriter: w, e: e}, r)
 			return
 		}
 		body, _ := ioutil.ReadAll(r.Body)
@@ -108,6 +112,25 @@ func New(name string, chainID *big.Int) *Endpoint {
 		e.rpcSrv.ServeHTTP(w, r)
 	}))
 	return e
+}
+
+type hijackRecorder struct {
+	http.ResponseWriter
+	e *Endpoint
+}
+
+func (h *hijackRecorder) Hijack() (net.Conn, *bufio.ReadWriter, error) {
+	hj, ok := h.ResponseWriter.(http.Hijacker)
+	if !ok {
+		return nil, nil, errors.New("chaindouble: response writer cannot hijack")
+	}
+	c, rw, err := hj.Hijack()
+	if err == nil {
+		h.e.mu.Lock()
+		h.e.wsConns = append(h.e.wsConns, c)
+		h.e.mu.Unlock()
+	}
+	return c, rw, err
 }
 
 // HTTP / WS are the two URLs of the endpoint ("http://127.0.0.1:p", "ws://127.0.0.1:p").
@@ -134,14 +157,23 @@ func (e *Endpoint) Close() {
 	}
 	e.cond.Broadcast()
 	e.mu.Unlock()
-	e.srv.CloseClientConnections()
+	e.DropConnections()
 	e.rpcSrv.Stop()
 	e.srv.Close()
 }
 
 // DropConnections closes every client connection of this endpoint (websocket
 // subscriptions end with an error at the client); the listener stays up.
-func (e *Endpoint) DropConnections() { e.srv.CloseClientConnections() }
+func (e *Endpoint) DropConnections() {
+	e.mu.Lock()
+	cs := e.wsConns
+	e.wsConns = nil
+	e.mu.Unlock()
+	for _, c := range cs {
+		c.Close()
+	}
+	e.srv.CloseClientConnections()
+}
 
 // Script sets the outcome of a method ("eth_sendRawTransaction", ...); the zero Outcome clears it.
 func (e *Endpoint) Script(method string, o Outcome) {
